@@ -55,19 +55,61 @@ class Summ:
         key = tuple(c.key() for c in ctx)
         if key not in self._atoms:
             self._atoms[key] = self.facts.atoms(self.facts.effective_ctx(ctx, self.fw), self.fw)
-        return self._atoms[key]
+        out = self._atoms[key]
+        if isinstance(site_or_ctx, Site) and site_or_ctx.leaf is not None and site_or_ctx.leaf.via:
+            out = self.subst_params(out, site_or_ctx.leaf.via)
+        return out
+
+    def subst_params(self, atoms, via):
+        """inside a helper function the guards talk about its parameters: replace them by the caller's arguments"""
+        mapping = {}
+        for callee_fw, call, cscope, cfw in via:
+            names = [p[0] for p in callee_fw.fn.params() if p[0] != 'self']
+            tmc = self.cx.gm.terms_of(cfw)
+            for i, nme in enumerate(names):
+                if i < len(call['args']):
+                    mapping[('param', nme)] = tmc.term(call['args'][i], cscope)
+
+        def sub(t):
+            if isinstance(t, tuple):
+                if t in mapping:
+                    return mapping[t]
+                return tuple(sub(x) for x in t)
+            return t
+        out = []
+        seen_call = False
+        for a in atoms:
+            if a[0] == 'call':
+                seen_call = True
+                out.append(a)
+            elif seen_call:
+                out.append(sub(a))
+            else:
+                out.append(a)
+        return out
 
     def eff_ctx(self, ctx):
         return self.facts.effective_ctx(ctx, self.fw)
 
     def hole_term(self, site, name):
-        """term of a hole, with helper-function parameters substituted by the caller's argument"""
+        """term of a hole, with helper-function parameters substituted by the caller's arguments"""
         t = site.tmpl.hole_term(name)
-        if site.leaf is not None and site.leaf.via and isinstance(t, tuple) and t[0] == 'param':
-            callee_fw, call, cscope, cfw = site.leaf.via[-1]
-            names = [p[0] for p in callee_fw.fn.params() if p[0] != 'self']
-            if t[1] in names and names.index(t[1]) < len(call['args']):
-                return self.cx.gm.terms_of(cfw).term(call['args'][names.index(t[1])], cscope)
+        if site.leaf is not None and site.leaf.via:
+            mapping = {}
+            for callee_fw, call, cscope, cfw in site.leaf.via:
+                names = [p[0] for p in callee_fw.fn.params() if p[0] != 'self']
+                tmc = self.cx.gm.terms_of(cfw)
+                for i, nme in enumerate(names):
+                    if i < len(call['args']):
+                        mapping[('param', nme)] = tmc.term(call['args'][i], cscope)
+
+            def sub(x):
+                if isinstance(x, tuple):
+                    if x in mapping:
+                        return mapping[x]
+                    return tuple(sub(y) for y in x)
+                return x
+            return sub(t)
         return t
 
     def bad(self, rule, inst, msg, site=None, line=None):
@@ -636,7 +678,7 @@ def binder_resolver(S, pms):
     return resolver
 
 
-def variant_arms(S, rule, msite, arms_hole, need_shapes=('Unit', 'Named', 'Unnamed')):
+def variant_arms(S, rule, msite, arms_hole, need_shapes=('Unit', 'Named', 'Unnamed'), allow=lambda a: False):
     """one arm template per variant shape, emitted in the in-order variants loop under exactly the shape guard"""
     arm_sites = S.kids(msite, arms_hole)
     by_shape = {}
@@ -650,7 +692,7 @@ def variant_arms(S, rule, msite, arms_hole, need_shapes=('Unit', 'Named', 'Unnam
             continue
         V = vl[1]
         shapes = [x for x in atoms if x[0] == 'shape' and x[1] == ('field', ('elem', V), 'fields') and x[3] is True]
-        extra = [x for x in atoms_after_loop(atoms, V) if x not in shapes]
+        extra = [x for x in atoms_after_loop(atoms, V) if x not in shapes and not allow(x)]
         if len(shapes) != 1 or extra:
             S.bad(rule, 'enum-arm-guard', 'an arm is emitted under %s (expected exactly the variant\'s shape)' % [atom_s(x)[:80] for x in atoms_after_loop(atoms, V)], a)
             ok = False
